@@ -5,8 +5,12 @@
    C01/C20's theorem; here wf_def is evaluated on every real emitted definition (correspondence). *)
 From Coq Require Import ZArith List Bool String.
 Import ListNotations.
-Require Import SC3.model.Scgf.
-Require Import SC3.proofs.C02_scgf SC3.proofs.C02_wf SC3.proofs.C02_total SC3.proofs.C02_reader SC3.proofs.C02_variants.
+Require SC3.model.Graph.
+Require Import SC3.gen.Gen_scgftables SC3.gen.Gen_opcodes.
+Require Import SC3.model.Scgf SC3.model.GraphScgf.
+Require Import SC3.proofs.C02_scgf SC3.proofs.C02_wf SC3.proofs.C02_total SC3.proofs.C02_reader SC3.proofs.C02_variants
+               SC3.proofs.C02_bridge.
+Close Scope string_scope.
 Open Scope Z_scope.
 
 (* Whatever structure d the writer accepts (names <= 255 ASCII bytes, 32-bit words, counts and
@@ -91,6 +95,102 @@ Theorem variants_all_written_when_valid : forall name ctl names src,
   List.length (resolve_variants name ctl names src) = List.length src.
 Proof. exact resolve_variants_all. Qed.
 
+(* ---- the _fmtrw primitives --------------------------------------------------------------- *)
+(* read_pascal_str (length byte read UNSIGNED, short read tolerated, ASCII decoding) after
+   write_pascal_str: identity for every name of every length 0..255 made of ASCII bytes *)
+Theorem fmtrw_pascal_str_roundtrip : forall (s r : bytes),
+  (List.length s <= 255)%nat -> Forall (fun b => 0 <= b < 128) s ->
+  lib_rd_pstr (enc_pstr s ++ r) = Ok (s, r) /\ rd_pstr (enc_pstr s ++ r) = Ok (s, r).
+Proof.
+  intros s r Hl Ha.
+  assert (Hok : pstr_ok s = true).
+  { unfold pstr_ok. apply andb_true_iff. split.
+    - apply Z.ltb_lt. unfold zlen. apply Nat2Z.inj_le in Hl. simpl in Hl.
+      apply (Z.le_lt_trans _ 255); [exact Hl | reflexivity].
+    - rewrite forallb_forall. rewrite Forall_forall in Ha. intros x Hx. specialize (Ha x Hx).
+      unfold ascii_ok. apply andb_true_iff. split; [apply Z.leb_le | apply Z.ltb_lt]; tauto. }
+  split; [apply lib_rd_pstr_rt | apply rd_pstr_rt]; exact Hok.
+Qed.
+
+(* read_i8 / read_i16 / read_i32 (signed, big-endian) and a float32 word after write_*: identity
+   on the whole range of each field *)
+Theorem fmtrw_int_roundtrip : forall v r,
+  (i8_ok v = true -> rd_i8 (enc_i8 v ++ r) = Ok (v, r))
+  /\ (i16_ok v = true -> rd_i16 (enc_i16 v ++ r) = Ok (v, r))
+  /\ (i32_ok v = true -> rd_i32 (enc_i32 v ++ r) = Ok (v, r))
+  /\ (w32_ok v = true -> rd_w32 (enc_w32 v ++ r) = Ok (v, r)).
+Proof. intros v r. repeat split; intros H; [apply rd_i8_rt | apply rd_i16_rt | apply rd_i32_rt | apply rd_w32_rt]; exact H. Qed.
+
+(* SynthDesc.def_name_from_bytes on written bytes returns the definition name *)
+Theorem def_name_recovered : forall d bs, write_def d = Some bs -> def_name_of bs = Some (d_name d).
+Proof.
+  intros d bs H. unfold write_def in H. destruct (def_ok d) eqn:Hok; [|discriminate].
+  inversion H; subst. apply def_name_of_enc; exact Hok.
+Qed.
+
+(* the regenerated rate tables: UGen._rate_number and SynthDesc._RATE_NAME are inverse *)
+Theorem rate_tables_consistent :
+  forallb (fun p => match nth_error gen_rate_names (Z.to_nat (snd p)) with
+                    | Some n => String.eqb n (fst p) | None => false end) gen_rate_number = true
+  /\ nth_error gen_rate_names (Z.to_nat gen_rate_default) = Some "scalar"%string
+  /\ List.length gen_rate_names = S (List.length gen_rate_number).
+Proof. exact rate_tables_consistent_l. Qed.
+
+(* ---- In/Out bus units of the description ------------------------------------------------- *)
+(* the input / output descriptors the reader returns are exactly io_ins / io_outs: a function of
+   the units and of the slot names alone (slot i is named by the last name-table entry with
+   index i), whatever control unit a slot belongs to *)
+Theorem reader_io_units : forall d ds, desc_of_def d = Some ds ->
+  ds_ins ds = io_ins (d_consts d) (slot_names d) [] (d_units d)
+  /\ ds_outs ds = io_outs (d_consts d) (slot_names d) [] (d_units d).
+Proof. exact reader_io_l. Qed.
+
+(* a bus input that is output c of ANY control unit (Control / TrigControl / LagControl; the first
+   one or a later one, special index sp = its first slot) is described by the name the table gives
+   to slot sp + c *)
+Theorem reader_bus_control_name : forall d u c src n before consts,
+  nth_z before u = Some src ->
+  existsb (bytes_eqb (u_cls src)) control_sub_classes = true ->
+  NoDup (map snd (d_names d)) ->
+  In (n, c + u_special src) (d_names d) ->
+  0 <= c + u_special src < zlen (d_ctl d) ->
+  start_of_n consts (slot_names d) before (IOut u c) = Some (SName n).
+Proof. exact bus_control_name_l. Qed.
+
+(* ---- bridge to the compiler model (model/Graph.v) ---------------------------------------- *)
+(* a compiled graph that passes graph_ok (inputs = collected constants / outputs of strictly earlier
+   units, control units inside the control array, fields in range) becomes a well-formed
+   definition whose bytes exist and parse back to it *)
+Theorem compiled_graph_wf : forall f32 name pnames g,
+  (forall q, w32_ok (f32 q) = true) ->
+  names_ok name pnames (zlen (Graph.gr_controls g)) = true ->
+  graph_ok g = true ->
+  exists d, to_sdef f32 name pnames g = Some d /\ wf_def d = true.
+Proof. exact to_sdef_wf_l. Qed.
+
+Theorem compiled_graph_roundtrip : forall f32 name pnames g,
+  (forall q, w32_ok (f32 q) = true) ->
+  names_ok name pnames (zlen (Graph.gr_controls g)) = true ->
+  graph_ok g = true ->
+  exists d bs, to_sdef f32 name pnames g = Some d /\ wf_def d = true
+               /\ write_def d = Some bs /\ parse_def bs = Ok d.
+Proof. exact to_sdef_roundtrip_l. Qed.
+
+(* PARTIAL: for EVERY program the compiler model compiles -- under the explicit hypothesis
+   compile_wf (the compiler's output passes graph_ok), which is C01/C20's obligation
+   (DESIGN: compile_wf / topo_is_permutation_respecting_edges) and is not proved there yet.
+   Full statement = this one without the hypothesis.  Meanwhile bridge_check evaluates graph_ok,
+   wf_def and byte equality with the REAL library on every correspondence program. *)
+Theorem compiled_programs_roundtrip_partial : forall T strict guard,
+  (forall p g, Graph.compile T strict guard p = Graph.Ok g -> graph_ok g = true) ->
+  forall f32 name pnames p g,
+  (forall q, w32_ok (f32 q) = true) ->
+  Graph.compile T strict guard p = Graph.Ok g ->
+  names_ok name pnames (zlen (Graph.gr_controls g)) = true ->
+  exists d bs, to_sdef f32 name pnames g = Some d /\ wf_def d = true
+               /\ write_def d = Some bs /\ parse_def bs = Ok d.
+Proof. exact compiled_roundtrip_partial_l. Qed.
+
 (* ---- non-vacuity: a concrete definition (SinOsc.ar(freq) -> Pan2 -> Out, one control 'gate'),
         accepted by the writer, well-formed, read back by both readers ---- *)
 Definition ex_def : sdef :=
@@ -124,7 +224,45 @@ Example ex_invalid_variant_dropped :
   resolve_variants (bs_of_string "a"%string) [0] [(bs_of_string "freq"%string, 0, 1)] [(bs_of_string "v"%string, [(bs_of_string "nope"%string, [1])])] = [].
 Proof. vm_compute. reflexivity. Qed.
 
+(* two control units (Control.ir covering slots 0-1, Control.kr covering slots 2-3): the Out unit's
+   bus is output 1 of the SECOND control unit -> described by the name of slot 3 *)
+Definition ex_two_ctl : sdef :=
+  mkSdef (bs_of_string "m"%string) [0] [0; 0; 1138491392; 1090519040]
+         [(bs_of_string "a"%string, 0); (bs_of_string "b"%string, 1); (bs_of_string "freq"%string, 2); (bs_of_string "out"%string, 3)]
+         [mkUgen (bs_of_string "Control"%string) 0 [] [0; 0] 0;
+          mkUgen (bs_of_string "Control"%string) 1 [] [1; 1] 2;
+          mkUgen (bs_of_string "SinOsc"%string) 2 [IOut 1 0; IConst 0] [2] 0;
+          mkUgen (bs_of_string "Out"%string) 2 [IOut 1 1; IOut 2 0] [] 0] [].
+Example ex_two_ctl_bus : match desc_of_def ex_two_ctl with
+                         | Some ds => map io_start (ds_outs ds) = [SName (bs_of_string "out"%string)]
+                                      /\ map c_rate (ds_ctls ds) = [0; 0; 1; 1]
+                         | None => False end.
+Proof. vm_compute. split; reflexivity. Qed.
+
+(* the compiler model on a concrete program: SinOsc.ar(freq) -> Out.ar(out, .) with two kr parameters;
+   its output passes graph_ok (the hypothesis compile_wf is met here) and the bridge applies *)
+Definition ex_T := Graph.mkT unops_list binops_list.
+Definition ex_prog : Graph.prog :=
+  Graph.mkP [] [QArith_base.Qmake 440 1; QArith_base.Qmake 0 1]
+    [Graph.IU "SinOsc"%string Graph.Audio [Graph.AP true 0; Graph.AC (QArith_base.Qmake 0 1)];
+     Graph.IOut Graph.Audio (Graph.AP true 1) [Graph.AV 0 0]].
+Example ex_compiled_bridge :
+  match Graph.compile ex_T dce_strict dce_guard ex_prog with
+  | Graph.Ok g =>
+      graph_ok g = true
+      /\ match to_sdef (fun _ => 0) (bs_of_string "c"%string) [(bs_of_string "k0"%string, 0); (bs_of_string "k1"%string, 1)] g with
+         | Some d => wf_def d = true /\ List.length (d_units d) = 3%nat
+                     /\ match write_def d with Some bs => parse_def bs = Ok d | None => False end
+         | None => False end
+  | Graph.Err _ => False
+  end.
+Proof. vm_compute. repeat split. Qed.
+Example ex_len255_name : lib_rd_pstr (enc_pstr (repeat 120 255) ++ [7]) = Ok (repeat 120 255, [7]).
+Proof. vm_compute. reflexivity. Qed.
+
 Print Assumptions scgf_roundtrip.
 Print Assumptions wf_def_sound.
 Print Assumptions reader_recovers.
 Print Assumptions parse_total.
+Print Assumptions compiled_programs_roundtrip_partial.
+Print Assumptions reader_io_units.
